@@ -52,6 +52,8 @@ struct LaneInfo<'a> {
     // ---- supply lanes
     item_of: HashMap<Bytes, usize>,
     items: Vec<&'a Emit>,
+    /// Indices (into `items`) of the items with an empty body (not identifiable by content).
+    empty_items: Vec<usize>,
     // ---- map lanes
     keys: Vec<Value>,
     /// peeled value text -> the update that produced it
@@ -84,6 +86,7 @@ fn build_lane<'a>(idx: usize, spec: &'a LaneSpec, rec: &'a LaneRec) -> LaneInfo<
         version_of: HashMap::new(),
         item_of: HashMap::new(),
         items: vec![],
+        empty_items: vec![],
         keys: vec![],
         upd_by_value: HashMap::new(),
         key_texts: vec![],
@@ -100,7 +103,11 @@ fn build_lane<'a>(idx: usize, spec: &'a LaneSpec, rec: &'a LaneRec) -> LaneInfo<
         match &e.what {
             Emitted::Std(Payload::Bytes(b)) | Emitted::SyncEv(_, Payload::Bytes(b)) => {
                 if spec.kind == LK::Supply {
-                    li.item_of.insert(b.clone(), li.items.len());
+                    if b.is_empty() {
+                        li.empty_items.push(li.items.len());
+                    } else {
+                        li.item_of.insert(b.clone(), li.items.len());
+                    }
                     li.items.push(e);
                 }
             }
@@ -216,6 +223,30 @@ fn split_by_lane<'a>(frames: &'a [Frame], reqs: &'a [Req], prior: &'a [Req]) -> 
 
 fn started_before(reqs: &[&Req], kind: ReqKind, t: u64) -> usize {
     reqs.iter().filter(|r| r.kind == kind && r.t0 < t).count()
+}
+
+/// Runs of empty supply items between identified ones: (exclusive lower item index, exclusive upper item index,
+/// number of empty items received in between). Identified items that arrive out of order are reported by the
+/// caller and do not move the lower bound back.
+fn empty_runs(seq: &[Option<usize>]) -> Vec<(i64, i64, usize)> {
+    let mut runs = vec![];
+    let mut lo: i64 = -1;
+    let mut k = 0usize;
+    for x in seq {
+        match x {
+            None => k += 1,
+            Some(i) => {
+                let i = *i as i64;
+                if i > lo {
+                    runs.push((lo, i, k));
+                    lo = i;
+                    k = 0;
+                }
+            }
+        }
+    }
+    runs.push((lo, i64::MAX, k));
+    runs
 }
 
 fn e_lt(a: Option<u64>, b: u64) -> bool {
@@ -393,6 +424,8 @@ pub fn check_all(obs: &Obs, out: &mut CaseOut) -> Summary {
             // supply
             let mut last_item: Option<usize> = None;
             let mut items_seen: HashSet<usize> = HashSet::new();
+            // supply: received items in order (None: an item with an empty body)
+            let mut supply_seq: Vec<Option<usize>> = vec![];
             let mut extra_keys: Vec<Value> = vec![];
 
             for (fi, f) in lf.frames.iter().enumerate() {
@@ -637,7 +670,17 @@ pub fn check_all(obs: &Obs, out: &mut CaseOut) -> Summary {
                             LK::Supply => {
                                 sum.events_byte_checked += 1;
                                 sum.supply_items += 1;
-                                match li.item_of.get(&f.body) {
+                                // An empty item carries no identity: the runs of empty items between identified
+                                // items are checked by count once the whole sequence is known.
+                                if f.body.is_empty() {
+                                    supply_seq.push(None);
+                                    continue;
+                                }
+                                let found = li.item_of.get(&f.body).copied();
+                                if let Some(i) = found {
+                                    supply_seq.push(Some(i));
+                                }
+                                match found.as_ref() {
                                     None => {
                                         stray(out, &f.body);
                                         out.violation("C14", "supply/invented-item", "a remote received a supply-lane item that was never pushed", json!({"item": show(&f.body)}));
@@ -770,6 +813,19 @@ pub fn check_all(obs: &Obs, out: &mut CaseOut) -> Summary {
                 }
             }
 
+            // C14: never more empty supply items between two identified items than the lane pushed there.
+            if let Some(li) = li {
+                if li.spec.kind == LK::Supply && !li.empty_items.is_empty() || supply_seq.iter().any(|x| x.is_none()) {
+                    for (lo, hi, k) in empty_runs(&supply_seq) {
+                        let pushed = li.empty_items.iter().filter(|i| (**i as i64) > lo && (**i as i64) < hi).count();
+                        if k > pushed {
+                            out.violation("C14", "supply/invented-item/empty", "a remote received more empty supply-lane items between two items than the lane pushed between them", json!({"lane": lane, "received": k, "pushed": pushed}));
+                            break;
+                        }
+                    }
+                }
+            }
+
             // ---- end-of-conversation rules for this (session, lane)
             let (open_at_q, open_at_q_since, synced_at_q) = open_before(&lf.frames, q);
             let unlink_req_after = lf.reqs.iter().any(|r| r.kind == ReqKind::Unlink && r.t1.unwrap_or(u64::MAX) > open_at_q_since);
@@ -869,10 +925,21 @@ pub fn check_all(obs: &Obs, out: &mut CaseOut) -> Summary {
                     }
                     LK::Supply => {
                         // C14: every item of a burst issued after the link was certainly up.
+                        let mut mandatory_empties: HashSet<usize> = HashSet::new();
                         if li.fail_t.is_none() {
                             for (t_issue, l, ctl) in &obs.lane_ctl {
                                 if *l != li.idx || *t_issue <= open_at_q_since {
                                     continue;
+                                }
+                                if let LaneCtl::Empties(_) = ctl {
+                                    // the empty items pushed by this control message: those emitted after it and
+                                    // before the next control message of the lane
+                                    let next_ctl = obs.lane_ctl.iter().filter(|(t, l2, _)| *l2 == li.idx && *t > *t_issue).map(|x| x.0).min().unwrap_or(u64::MAX);
+                                    for &ix in li.empty_items.iter().filter(|ix| li.items[**ix].t0 > *t_issue && li.items[**ix].t0 < next_ctl) {
+                                        if li.items[ix].t1.map_or(false, |t| t <= q) {
+                                            mandatory_empties.insert(ix);
+                                        }
+                                    }
                                 }
                                 if let LaneCtl::Burst { first, n, pad } = ctl {
                                     for i in 0..*n as u64 {
@@ -887,6 +954,17 @@ pub fn check_all(obs: &Obs, out: &mut CaseOut) -> Summary {
                                             break;
                                         }
                                     }
+                                }
+                            }
+                        }
+                        // empty items pushed while the remote was certainly linked: each run must hold them all
+                        if !mandatory_empties.is_empty() {
+                            for (lo, hi, k) in empty_runs(&supply_seq) {
+                                let must = mandatory_empties.iter().filter(|i| (**i as i64) > lo && (**i as i64) < hi).count();
+                                sum.supply_certain += must as u64;
+                                if k < must {
+                                    out.violation("C14", "supply/item-lost/empty", "an empty item pushed while the remote was certainly linked was never delivered to it (or was overtaken by a later item)", json!({"lane": lane, "received": k, "pushed_while_linked": must}));
+                                    break;
                                 }
                             }
                         }
@@ -1536,8 +1614,9 @@ fn check_reporting(obs: &Obs, lanes: &[LaneInfo], views: &[SView], out: &mut Cas
             for v in views {
                 for r in v.reqs.iter().filter(|r| r.kind == ReqKind::Command && r.lane == name && r.t0 < c) {
                     cmd_hi += 1;
-                    let valid = li.spec.kind != LK::Map || matches!(peel(&r.body), Some(Peeled::Update(_, _)) | Some(Peeled::Remove(_)) | Some(Peeled::Clear));
-                    if valid && r.t1.map_or(false, |t| t < c) {
+                    // A command envelope the runtime has read was received by that lane's uplink, whether or not
+                    // its body then turns out to be a well-formed map message.
+                    if r.t1.map_or(false, |t| t < c) {
                         cmd_lo += 1;
                     }
                 }
